@@ -251,7 +251,7 @@ func graphCases() []graphCase {
 }
 
 // nonSchemaPointers lead into keywords whose values are not schemas.
-var nonSchemaPointers = []string{"#/minimum", "#/minimum/x", "#/type", "#/type/0", "#/enum", "#/enum/0", "#/enum/0/a", "#/const", "#/const/x", "#/required", "#/required/0", "#/default", "#/default/0", "#/default/a",
+var nonSchemaPointers = []string{"#/allOf/9223372036854775808", "#/allOf/18446744073709551615", "#/prefixItems/9223372036854775807", "#/allOf/4294967296", "#/prefixItems/18446744073709551616", "#/minimum", "#/minimum/x", "#/type", "#/type/0", "#/enum", "#/enum/0", "#/enum/0/a", "#/const", "#/const/x", "#/required", "#/required/0", "#/default", "#/default/0", "#/default/a",
 	"#/dependencies/a", "#/dependencies/a/0", "#/dependencies/b", "#/$vocabulary", "#/$vocabulary/x", "#/examples", "#/examples/0", "#/x-extra", "#/x-extra/a", "#/dependentRequired/a", "#/dependentRequired/a/0",
 	"#/multipleOf", "#/title", "#/title/0", "#/$id", "#/$ref", "#/uniqueItems", "#/uniqueItems/x", "#/minLength", "#/minLength/0", "#/items/0", "#/items/a", "#/prefixItems/a", "#/prefixItems/-", "#/properties/a/0",
 	"#/Extra", "#/extra", "#/PropertyOrder/0", "#/propertyOrder", "#/pattern", "#/pattern/0", "#/format/x", "#/deprecated/x", "#/$comment/0", "#/$anchor/x", "#/$dynamicAnchor", "#/$schema/x", "#/contentEncoding/0",
